@@ -172,12 +172,13 @@ From Verif Require Import Labels.LabelsModel Builder.AsmOrder Builder.BuilderIma
    coincide - however the sections interleave - produce the same label table, the same unresolved-fixup count, the same section sizes and, after
    layout at ANY section offsets and cross-section resolution, the same bytes in every section (a one-to-one correspondence between
    references and reference items is part of the invariant).  Labels and sections are created first, every label is bound
-   at most once, no bind is refused ([all_fit]: every same-section reference to the label can encode its displacement - a condition on
-   the per-section sequences, hence itself order independent), no address wraps around 2^64.  Fragment: raw bytes, gaps, label references, binds and absolute
+   at most once, no address wraps around 2^64.  A bind that CodeHolder::bind_label refuses (a same-section reference cannot encode its
+   displacement: kInvalidDisplacement, nothing changes) is a no-op in both orders: the machine's precheck over the pending fixups is proved
+   equal to a check over the section's own reference items (precheck_local).  Fragment: raw bytes, gaps, label references, binds and absolute
    references (embed_label: the RelToAbs relocation entries are the same up to creation order, with the same final payload and target
    section); label deltas (embed_label_delta) are outside. *)
 Theorem C08_order_irrelevant : forall nl ns t1 t2 offs,
-  (forall k, proj k t1 = proj k t2) -> tags_ok ns t1 -> tags_ok ns t2 -> NoDup (bound_labels t1) -> all_fit nl ns t1 -> nowrap nl ns t1 offs ->
+  (forall k, proj k t1 = proj k t2) -> tags_ok ns t1 -> tags_ok ns t2 -> NoDup (bound_labels t1) -> nowrap nl ns t1 offs ->
   let s1 := LabelsModel.run init ((prelude nl ns ++ expand t1) ++ [OResolve offs]) in
   let s2 := LabelsModel.run init ((prelude nl ns ++ expand t2) ++ [OResolve offs]) in
   labels s1 = labels s2 /\ unresolved s1 = unresolved s2 /\ Permutation (relocs s1) (relocs s2) /\
@@ -191,7 +192,7 @@ Print Assumptions C08_order_irrelevant.
    call depends on the call and on the calls issued before in the same section, assembling what the Builder serializes and assembling the
    calls directly give - on C03's machine - the same label table, section sizes and resolved bytes in every section. *)
 (* ... and the layout + resolution step itself reports no error, in any order *)
-Theorem C08_resolve_ok : forall nl ns t offs, tags_ok ns t -> NoDup (bound_labels t) -> all_fit nl ns t -> nowrap nl ns t offs ->
+Theorem C08_resolve_ok : forall nl ns t offs, tags_ok ns t -> NoDup (bound_labels t) -> nowrap nl ns t offs ->
   snd (LabelsModel.step (LabelsModel.run init (prelude nl ns ++ expand t)) (OResolve offs)) = EOk.
 Proof. exact resolve_ok. Qed.
 Print Assumptions C08_resolve_ok.
@@ -200,7 +201,7 @@ Theorem C08_same_image : forall (enc : list ecall -> ecall -> list sop) nl ns of
   Forall (fun c => is_emitter_call c = true) cs -> all_ok (init_state rs) cs = true ->
   let direct := program enc (trace cs) in
   let serialized := program enc (trace (replay (BuilderModel.run (init_state rs) cs))) in
-  secs_valid ns (trace cs) -> NoDup (bound_labels direct) -> all_fit nl ns direct -> nowrap nl ns direct offs ->
+  secs_valid ns (trace cs) -> NoDup (bound_labels direct) -> nowrap nl ns direct offs ->
   let s1 := LabelsModel.run init ((prelude nl ns ++ expand direct) ++ [OResolve offs]) in
   let s2 := LabelsModel.run init ((prelude nl ns ++ expand serialized) ++ [OResolve offs]) in
   labels s1 = labels s2 /\ unresolved s1 = unresolved s2 /\ Permutation (relocs s1) (relocs s2) /\
@@ -214,7 +215,7 @@ Print Assumptions C08_same_image.
 Theorem C08_same_image_example :
   let direct := program enc_ex (trace example_program) in
   secs_valid 1 (trace example_program) /\ NoDup (bound_labels direct) /\ nowrap 2 1 direct [0; 4096] /\
-  proj 0 direct <> [] /\ proj 1 direct <> [] /\ all_fit 2 1 direct.
+  proj 0 direct <> [] /\ proj 1 direct <> [].
 Proof. exact example_image_hypotheses. Qed.
 Print Assumptions C08_same_image_example.
 
@@ -230,7 +231,7 @@ Theorem C08_add_func_layout : forall b,
 Proof. exact add_func_layout. Qed.
 Print Assumptions C08_add_func_layout.
 
-Theorem C08_end_func_spec : forall b,
+Theorem C08_end_func_spec : forall b, lpool b = None ->       (* without a pending local constant pool; with one the pool node is linked in first *)
   let b' := fst (BuilderModel.step b CEndFunc) in
   active b' = active b /\ pool b' = pool b /\ p_opts b' = 0 /\ p_comment b' = None /\
   match cur_func b with
@@ -239,3 +240,43 @@ Theorem C08_end_func_spec : forall b,
   end.
 Proof. exact end_func_spec. Qed.
 Print Assumptions C08_end_func_spec.
+
+(* Compiler: emit_annotated_jump / add_invoke_node capture the pending one-shot state like _emit; the node stands for the plain instruction *)
+Theorem C08_jump_invoke_faithful : forall b id op ann,
+  let j := fst (BuilderModel.step b (CJump id op ann)) in let i := fst (BuilderModel.step b (CInvoke id op)) in
+  active j = insert_at (cursor_pos (cursor b)) (mkNode (NJump id (p_opts b) (p_exsig b) (p_exid b) op ann) (dup_comment (p_comment b))) (active b) /\
+  active i = insert_at (cursor_pos (cursor b)) (mkNode (NInvoke id (p_opts b) (p_exsig b) (p_exid b) op) (dup_comment (p_comment b))) (active b) /\
+  p_opts j = 0 /\ p_comment j = None /\ p_opts i = 0 /\ p_comment i = None /\
+  node_ecalls (mkNode (NJump id (p_opts b) (p_exsig b) (p_exid b) op ann) (dup_comment (p_comment b)))
+    = [EInst id (clear_reserved (p_opts b)) (p_exsig b) (p_exid b) (canon_ops op op_none op_none op_none op_none op_none) (dup_comment (p_comment b))] /\
+  node_ecalls (mkNode (NInvoke id (p_opts b) (p_exsig b) (p_exid b) op) (dup_comment (p_comment b)))
+    = [EInst id (clear_reserved (p_opts b)) (p_exsig b) (p_exid b) (canon_ops op op_none op_none op_none op_none op_none) (dup_comment (p_comment b))].
+Proof. exact jump_invoke_faithful. Qed.
+Print Assumptions C08_jump_invoke_faithful.
+
+(* Compiler: _new_const creates the pool node of a scope on first use (one label), shares equal constants, links nothing into the list *)
+Theorem C08_new_const_spec : forall b scope d,
+  let b' := fst (BuilderModel.step b (CNewConst scope d)) in
+  active b' = active b /\ cursor b' = cursor b /\ snd (BuilderModel.step b (CNewConst scope d)) = kOk /\
+  (scope = 0 -> lpool b = None -> lpool b' = Some (nlabels b, d) /\ nlabels b' = nlabels b + 1 /\ gpool b' = gpool b) /\
+  (scope = 0 -> forall l old, lpool b = Some (l, old) -> lpool b' = Some (l, pool_add d old) /\ nlabels b' = nlabels b).
+Proof. exact new_const_spec. Qed.
+Print Assumptions C08_new_const_spec.
+
+(* ERROR CODES of the assembling phase: the sequence of error codes returned by the operations of each section (invalid label, bad hole,
+   displacement not encodable against a label already bound in the same section, already bound, invalid size, ...) is a function of that
+   section's own operation sequence - the same in every interleaving of the sections (on C03's machine; same hypotheses) *)
+Theorem C08_errors_order_irrelevant : forall nl ns t1 t2, (forall k, proj k t1 = proj k t2) ->
+  tags_ok ns t1 -> tags_ok ns t2 -> NoDup (bound_labels t1) ->
+  forall k, err_proj k t1 (run_errs (LabelsModel.run init (prelude nl ns)) t1) = err_proj k t2 (run_errs (LabelsModel.run init (prelude nl ns)) t2).
+Proof. exact errors_order_irrelevant. Qed.
+Print Assumptions C08_errors_order_irrelevant.
+
+(* Compiler: end_func links a pending local constant pool in right before the function's end sentinel and leaves the cursor on the sentinel *)
+Theorem C08_end_func_flushes_local_pool : forall b fl l d e,
+  cur_func b = Some fl -> lpool b = Some (l, d) -> find_index (is_func_end fl) (active b) = Some (S e) ->
+  let b' := fst (BuilderModel.step b CEndFunc) in
+  active b' = insert_at (S e) (mkNode (NConstPool l 8 d) None) (active b) /\ cursor b' = Some (S (S e)) /\
+  lpool b' = None /\ gpool b' = gpool b /\ cur_func b' = None /\ snd (BuilderModel.step b CEndFunc) = kOk.
+Proof. exact end_func_flushes_local_pool. Qed.
+Print Assumptions C08_end_func_flushes_local_pool.
